@@ -1728,6 +1728,106 @@ theorem flight_append (id : PayId) (s : State) (fl : List PartId) (a b : List Op
   | nil => rfl
   | cons op rest ih => simp only [List.cons_append, flight_cons, run_cons, ih]
 
+/-- handle_pay_route_err pushes `PaymentPathFailed` only for paths whose session priv the same arm removes -/
+theorem pushed_implies_removed (k : SendKind) (r : PathRes) (hp : handlePushes k = true) (hf : pathFailedPushed r = true) :
+    handleRemoves k r = true := by
+  cases k <;> cases r <;> revert hp hf <;> decide
+
+theorem abandonNow_evs_mem (id : PayId) (ps : List PartId) (r : Reason) (pre : List Ev) (p : PartId)
+    (h : Ev.pathFailed id p ∈ (abandonNow id ps r pre).2.evs) : Ev.pathFailed id p ∈ pre := by
+  unfold abandonNow at h
+  split at h
+  · simp only [List.mem_append, List.mem_singleton] at h
+    rcases h with h | h
+    · exact h
+    · cases h
+  · exact h
+
+theorem abandonNow_parts_sub (id : PayId) (ps : List PartId) (r : Reason) (pre : List Ev) :
+    ∀ x ∈ (abandonNow id ps r pre).1.parts, x ∈ ps := by
+  unfold abandonNow
+  split
+  · intro x hx; cases hx
+  · intro x hx; exact hx
+
+theorem handleErr_pathFailed_gone (id : PayId) (P : List PartId) (pe to : Nat) (k : SendKind)
+    (res : List (PartId × PathRes)) (tried : List PartId) (p : PartId)
+    (h : Ev.pathFailed id p ∈ (handleErr amt id (.retryable P pe to) k res tried).2.evs) :
+    p ∉ (handleErr amt id (.retryable P pe to) k res tried).1.parts := by
+  unfold handleErr at h ⊢
+  simp only [handleErr_foldl id] at h ⊢
+  obtain ⟨ps', pe', h1, h2⟩ := removeAll_retryable (amt := amt) ((res.filter fun x => handleRemoves k x.2).map (·.1)) P pe to
+  rw [h1] at h ⊢
+  -- the event stems from a path that the arm removes
+  have key : Ev.pathFailed id p ∈ (if handlePushes k then
+      res.filterMap fun x => if pathFailedPushed x.2 then some (Ev.pathFailed id x.1) else none else []) → p ∉ ps' := by
+    intro hm
+    split at hm
+    · rename_i hpush
+      rcases List.mem_filterMap.1 hm with ⟨x, hx, hxe⟩
+      split at hxe
+      · rename_i hf
+        cases hxe
+        intro hp
+        exact ((h2 x.1).1 hp).2 (List.mem_map.2 ⟨x, List.mem_filter.2 ⟨hx, pushed_implies_removed k x.2 hpush hf⟩, rfl⟩)
+      · cases hxe
+    · cases hm
+  cases hn : handleNext k with
+  | retry => simp only [hn] at h ⊢; exact key h
+  | none => simp only [hn] at h ⊢; exact key h
+  | abandonUnexpectedError =>
+    simp only [hn, abandonP] at h ⊢
+    intro hp
+    exact key (abandonNow_evs_mem id ps' _ _ p h) (abandonNow_parts_sub id ps' _ _ p hp)
+
+theorem payRoute_pathFailed_gone (id : PayId) (P : List PartId) (pe to : Nat) (paths : List (PartId × PathIn)) (ns : Bool)
+    (p : PartId) (h : Ev.pathFailed id p ∈ (payRoute amt id (.retryable P pe to) paths ns).2.evs) :
+    p ∉ (payRoute amt id (.retryable P pe to) paths ns).1.parts := by
+  rcases payRoute_eq (amt := amt) id (.retryable P pe to) paths ns with ⟨k, res, tried, he, _⟩ | he
+  · rw [he] at h ⊢; exact handleErr_pathFailed_gone id P pe to k res tried p h
+  · rw [he] at h; cases h
+
+/-- a `PaymentPathFailed` for part `p` is pushed only by a call after which the entry no longer holds `p` -/
+theorem stepP_pathFailed_gone (id : PayId) (st : PState) (pop : POp) (p : PartId)
+    (h : Ev.pathFailed id p ∈ (stepP amt id st pop).2.evs) : p ∉ (stepP amt id st pop).1.parts := by
+  cases pop with
+  | sendR paths ns =>
+    rcases stepP_sendR_cases (amt := amt) id st paths ns with ⟨_, _, he⟩ | ⟨_, he⟩ | ⟨_, he⟩
+    · rw [he] at h ⊢; exact payRoute_pathFailed_gone id _ _ _ paths ns p h
+    · rw [he] at h; cases h
+    · rw [he] at h; cases h
+  | retryR paths now ns =>
+    rcases stepP_retryR_cases (amt := amt) id st paths now ns with ⟨ps, pe, to, r, _, he⟩ | ⟨ps, pe, to, _, hf, _, he⟩ | ⟨_, he⟩ | ⟨_, he⟩
+    · rw [he] at h; exact (by cases abandonNow_evs_mem id ps r [] p h)
+    · rw [he] at h ⊢; exact payRoute_pathFailed_gone id _ _ _ paths ns p h
+    · rw [he] at h; cases h
+    · rw [he] at h; cases h
+  | _ =>
+    revert h
+    cases st <;> simp only [stepP, abandonNow, abandonP] <;> (repeat' split) <;>
+      simp_all [PState.parts, not_mem_removePart]
+
+/-- a `PaymentPathFailed` for part `p` of `id` pushed by a global op: afterwards `p` is not in flight -/
+theorem pathFailed_global_step (id : PayId) (s : State) (op : Op) (fl : List PartId) (hwf : WF s)
+    (hop : op ≠ .restore ∧ ∀ i p, op ≠ .insert i p) (h : Tracks s.amt (get s.cur id) fl) (p : PartId)
+    (hp : Ev.pathFailed id p ∈ (step s op).2.evs) : p ∉ flightOp id s fl op := by
+  have ht := tracks_global_step id s op fl hop h
+  rw [← ht.1, step_get s op id hop.1]
+  have hmem : Ev.pathFailed id p ∈ (step s op).2.evs.filter (fun e => e == Ev.pathFailed id p) :=
+    List.mem_filter.2 ⟨hp, by simp⟩
+  have hP : ∀ e, (e == Ev.pathFailed id p) = true → e.id = id := by
+    intro e he
+    have : e = Ev.pathFailed id p := by simpa using he
+    subst this; rfl
+  rw [step_evs s op id _ hP hwf.1] at hmem
+  have hp' := (List.mem_filter.1 hmem).1
+  unfold projStep at hp' ⊢
+  cases hpr : proj id s op with
+  | none => simp [hpr] at hp'
+  | some pop =>
+    simp only [hpr] at hp' ⊢
+    exact stepP_pathFailed_gone id _ pop p hp'
+
 theorem wf_run : ∀ (ops : List Op) (s : State), WF s → WF (run s ops).1 := by
   intro ops
   induction ops with
